@@ -84,7 +84,7 @@ def _flat_dom_walk(stack, out):
 def _split_clark(tag):
     if tag[:1] == "{":
         i = tag.find("}")
-        if i > 0:
+        if i > 1:          # "{}x" is not Clark notation (an empty namespace is never written)
             return tag[1:i], tag[i + 1:]
     return None, tag
 
